@@ -240,10 +240,19 @@ def seq_of_iter(facts, body, t, level=0):
                         val = v[3][0]
                     elif v[0] == 'call' and last_seg(v[1]) in ('from_residual',):
                         continue   # `?` inside the closure: the None continuation
+                    elif v[0] == 'call' and last_seg(v[1]) == 'then_some' and len(v[2]) == 2:
+                        # cond.then_some(x): Some(x) exactly when cond holds
+                        val = v[2][1]
+                        extra = [norm_cond(peel(v[2][0]), True)]
+                    elif v[0] == 'call' and last_seg(v[1]) == 'then' and len(v[2]) == 2 and 'bool' in v[1]:
+                        val = apply_fn(facts, v[2][1], ())
+                        extra = [norm_cond(peel(v[2][0]), True)]
                     else:
                         val = ('unwrap', al.value)
                     c = s.copy()
                     c.elem = val
+                    if v[0] == 'call' and last_seg(v[1]) in ('then_some', 'then') and len(v[2]) == 2:
+                        c.conds = c.conds + extra
                     c.conds = c.conds + [(('is', tt, tuple(sorted(nn))), True) for tt, nn in al.variants] + list(al.atoms)
                     out.append(c)
             return out
